@@ -38,6 +38,8 @@ type job struct {
 	taskRestarts bool
 	// node: crash the second run at every one of its boundaries as well
 	doubleCrash bool
+	// svc: only the crash points around the last operation
+	lastOnly bool
 }
 
 // curJobs: lineage -> description of the job in progress (for harness error messages)
@@ -56,64 +58,55 @@ type result struct {
 	keys   []string
 }
 
-// histories enumerates every history of length 1..maxLen over ids x levels, up to
-// renaming of IDs (the first ID used is "a").
-func histories(maxLen int, ids []string, levels []int) [][]Pt {
+// histories enumerates every history of length 1..maxLen over ids x levels.  The two IDs
+// are NOT interchangeable ("a" is a proper prefix of "ab": key-ordered storage can confuse
+// them in one direction only), so histories shorter than symLen are enumerated in full;
+// from symLen on only those whose first ID is ids[0] (budget).
+func histories(maxLen int, ids []string, levels []int, symLen int) [][]Pt {
 	var out [][]Pt
-	var rec func(cur []Pt, used int)
-	rec = func(cur []Pt, used int) {
-		if len(cur) > 0 {
+	var rec func(cur []Pt)
+	rec = func(cur []Pt) {
+		if len(cur) > 0 && (len(cur) < symLen || cur[0].ID == ids[0]) {
 			out = append(out, append([]Pt(nil), cur...))
 		}
 		if len(cur) == maxLen {
 			return
 		}
-		for i := 0; i < len(ids) && i <= used; i++ {
-			nu := used
-			if i == used {
-				nu = used + 1
-			}
+		for _, id := range ids {
 			for _, l := range levels {
-				rec(append(cur, Pt{ids[i], l}), nu)
+				rec(append(cur, Pt{id, l}))
 			}
 		}
 	}
-	rec(nil, 0)
+	rec(nil)
 	return out
 }
 
-// opHistories enumerates service operation histories of length 1..maxLen, up to
-// renaming of IDs and of the two topics (first used = "a" / "anon").
+// opHistories enumerates every service operation history of length 1..maxLen (no symmetry
+// reduction: neither the two IDs nor the two topic names are interchangeable, the shorter
+// is a proper prefix of the longer).
 func opHistories(maxLen int, ids []string, levels []int) [][]SOp {
 	topics := []string{"anon", "named"}
 	var out [][]SOp
-	var rec func(cur []SOp, usedT, usedI int)
-	rec = func(cur []SOp, usedT, usedI int) {
+	var rec func(cur []SOp)
+	rec = func(cur []SOp) {
 		if len(cur) > 0 {
 			out = append(out, append([]SOp(nil), cur...))
 		}
 		if len(cur) == maxLen {
 			return
 		}
-		for ti := 0; ti < len(topics) && ti <= usedT; ti++ {
-			nt := usedT
-			if ti == usedT {
-				nt++
-			}
-			for i := 0; i < len(ids) && i <= usedI; i++ {
-				ni := usedI
-				if i == usedI {
-					ni++
-				}
+		for _, tp := range topics {
+			for _, id := range ids {
 				for _, l := range levels {
-					rec(append(cur, SOp{"collect", topics[ti], ids[i], l}), nt, ni)
+					rec(append(cur, SOp{"collect", tp, id, l}))
 				}
 			}
-			rec(append(cur, SOp{"close", topics[ti], "", 0}), nt, usedI)
-			rec(append(cur, SOp{"delete", topics[ti], "", 0}), nt, usedI)
+			rec(append(cur, SOp{"close", tp, "", 0}))
+			rec(append(cur, SOp{"delete", tp, "", 0}))
 		}
 	}
-	rec(nil, 0, 0)
+	rec(nil)
 	return out
 }
 
@@ -154,7 +147,7 @@ func doJob(j job, lineage int64) result {
 		}
 		r.cleanup()
 	case "svc":
-		for i, tr := range doSvc(j.ops, lineage) {
+		for i, tr := range doSvc(j.ops, lineage, j.lastOnly) {
 			res.resets = append(res.resets, rt.M{"kind": "svc", "hasAnon": true, "hasNamed": true, "sco": false, "hist": opsFields(j.ops)})
 			res.traces = append(res.traces, tr)
 			res.keys = append(res.keys, fmt.Sprintf("svc%v@%d", j.ops, i))
@@ -182,13 +175,13 @@ func Run(r *rt.Run) error {
 		maxLen, svcLen, trLen, nRandom, nRandomSvc = 4, 3, 3, 100, 600
 		dblBoth, dblAll = 3, 2
 	}
-	ids := []string{"a", "b"}
+	ids := []string{"a", "ab"} // "a" is a proper prefix of "ab"
 	levels := []int{0, 1, 2, 3}
 	var jobs []job
 	// two showcase histories first (they become the evidence samples; both recur in the enumeration)
 	jobs = append(jobs,
 		job{kind: "node", cfg: Cfg{Anon: true, Named: true, SCO: true}, hist: []Pt{{"a", 2}, {"a", 2}}},
-		job{kind: "svc", ops: []SOp{{"collect", "anon", "a", 3}, {"close", "anon", "", 0}, {"collect", "anon", "b", 1}}})
+		job{kind: "svc", ops: []SOp{{"collect", "named", "ab", 3}, {"collect", "named", "a", 0}, {"delete", "anon", "", 0}}})
 	addNode := func(hs [][]Pt, minLen int) {
 		for _, h := range hs {
 			if len(h) < minLen {
@@ -206,8 +199,8 @@ func Run(r *rt.Run) error {
 	// all four levels up to length 2 (quick) / 3 (thorough); the longest histories of a tier
 	// run over {OK, WARNING, CRITICAL} (persistence only distinguishes OK from non-OK and
 	// equal from different levels)
-	addNode(histories(maxLen-1, ids, levels), 1)
-	addNode(histories(maxLen, ids, []int{0, 2, 3}), maxLen)
+	addNode(histories(maxLen-1, ids, levels, 3), 1)
+	addNode(histories(maxLen, ids, []int{0, 2, 3}, 3), maxLen)
 	nExh := len(jobs) - 2
 	// seeded random longer histories (a level changes with probability 1/2 so that
 	// stateChangesOnly sees both repeats and changes)
@@ -225,18 +218,20 @@ func Run(r *rt.Run) error {
 		jobs = append(jobs, job{kind: "node", cfg: cfgs[r.Rand.Intn(len(cfgs))], hist: h, taskRestarts: true})
 	}
 	nSvc := 0
-	addSvc := func(hs [][]SOp, minLen int) {
+	addSvc := func(hs [][]SOp, minLen int, lastOnlyLongest bool) {
 		for _, ops := range hs {
 			if len(ops) >= minLen {
-				jobs = append(jobs, job{kind: "svc", ops: ops})
+				jobs = append(jobs, job{kind: "svc", ops: ops, lastOnly: lastOnlyLongest && len(ops) == 3})
 				nSvc++
 			}
 		}
 	}
+	// operations over {OK, CRITICAL} up to length 3; quick crashes the length-3 histories only
+	// around their last operation (the earlier boundaries are those of their prefixes, with
+	// one operation less applied after the restart); thorough adds all four levels up to length 2
+	addSvc(opHistories(3, ids, []int{0, 3}), 1, !r.Thorough())
 	if r.Thorough() {
-		addSvc(opHistories(3, ids, levels), 1)
-	} else {
-		addSvc(opHistories(3, ids, []int{0, 3}), 1)
+		addSvc(opHistories(2, ids, []int{1, 2}), 1, false)
 	}
 	for i := 0; i < nRandomSvc; i++ {
 		n := 5 + r.Rand.Intn(5)
@@ -370,7 +365,7 @@ func Run(r *rt.Run) error {
 	r.Extra["crash_restarts_node"] = restarts["crash"]
 	r.Extra["task_restarts_node"] = restarts["taskrestart"]
 	r.Extra["crash_restarts_svc"] = restarts["svc"]
-	r.Finish("node: every level history up to the length bound over 2 alert IDs x 4 levels, the longest length of the tier over 3 levels (up to renaming of IDs) x {anonymous, named, both topics} x stateChangesOnly on/off on a real AlertNode task, restarted (fresh service + TaskMaster) on the storage as it stood before and after every topic-store commit and at every point boundary with the remaining points fed again, plus an in-process task restart after every point and (shorter histories) a second crash at every boundary of the second run; svc: every history of Collect/CloseTopic/DeleteTopic on two topics up to the bound with a restart at every commit boundary; thorough adds seeded random longer histories; non-trivial = at least one topic-store transaction was committed before the crash / task restart (the restart is not on a pristine store); distinct by (configuration, history, crash point)", nRandom == 0)
+	r.Finish("node: every level history up to the length bound over 2 alert IDs (a, ab: one a proper prefix of the other) x 4 levels, the longest length of the tier over 3 levels, length 3 and more only with first ID a x {anonymous, named, both topics} x stateChangesOnly on/off on a real AlertNode task, restarted (fresh service + TaskMaster) on the storage as it stood before and after every topic-store commit and at every point boundary with the remaining points fed again, plus an in-process task restart after every point and (shorter histories) a second crash at every boundary of the second run; svc: every history of Collect/CloseTopic/DeleteTopic on two topics (S, S_high) x IDs a, ab up to the bound, without symmetry reduction, with a restart at every commit boundary (quick: for length 3 only around the last operation); thorough adds seeded random longer histories; non-trivial = at least one topic-store transaction was committed before the crash / task restart (the restart is not on a pristine store); distinct by (configuration, history, crash point)", nRandom == 0)
 	return nil
 }
 
